@@ -85,6 +85,25 @@ func builtinAxioms() []*Term {
 	f := BoundVar("ax_f", SInt)
 	id := App("smid", SInt, r, f)
 	ax = append(ax, Forall([]*Term{r, f}, And(Eq(App("smid_obj", SInt, id), r), Eq(App("smid_fld", SInt, id), f)), id))
+	// struct map keys: the constructor is injective (each projection recovers its field)
+	var names []string
+	for n := range structKeyTypes {
+		names = append(names, n)
+	}
+	sort.Strings(names)
+	for _, n := range names {
+		sorts, _ := structKeyFields(structKeyTypes[n])
+		var bvs []*Term
+		for i, srt := range sorts {
+			bvs = append(bvs, BoundVar(fmt.Sprintf("ax_k%d", i), srt))
+		}
+		c := App("skey$"+n, SInt, bvs...)
+		var eqs []*Term
+		for i, srt := range sorts {
+			eqs = append(eqs, Eq(App(fmt.Sprintf("skey$%s$%d", n, i), srt, c), bvs[i]))
+		}
+		ax = append(ax, Forall(bvs, And(eqs...), c))
+	}
 	return ax
 }
 
